@@ -1078,7 +1078,12 @@ class _NP:
                 if r is None:
                     e.py_raise("ValueError", "zero-size array to reduction operation")
                 return r
-            # symbolic: witness + universal bound (D23)
+            # symbolic: witness + universal bound (D23); the extreme of pointwise-equal arrays is the same value
+            if x.ndim == 1:
+                reg = eng_reg(e, "__extreme")
+                for (n2, f2, w2, m2) in reg:
+                    if w2 == which and pointwise_equal(e, x.shape[0], lambda k: f((k,)), n2, f2) is True:
+                        return m2
             size_pos = b_and(*[lift(d) > 0 for d in x.shape])
             if not e.must(zb(size_pos)):
                 if not e.branch(zb(size_pos)):
@@ -1089,6 +1094,8 @@ class _NP:
             body = zb((lift(f(tuple(Num(q) for q in qs))) <= m) if which == "max" else (lift(f(tuple(Num(q) for q in qs))) >= m))
             rng = z3.And(*[z3.And(q >= 0, q < to_z3(d)) for q, d in zip(qs, x.shape)])
             e.axiom(z3.ForAll(qs, z3.Implies(rng, body)))
+            if x.ndim == 1:
+                eng_reg(e, "__extreme").append((x.shape[0], (lambda k: f((k,))), which, m))
             return m
         if x.ndim == 2:
             ax = axis if axis >= 0 else axis + 2
